@@ -5,10 +5,12 @@
 -/
 import RoModel.DriverCore
 import RoModel.Drivers.Op
+import RoModel.Drivers.MultiB
 namespace Ro.Driver
 
 def handlers : List (String × (Case → String)) := [
-  ("op", Drivers.Op.run)
+  ("op", Drivers.Op.run),
+  ("multib", Drivers.MultiB.run)
 ]
 
 def runCase (c : Case) : String :=
